@@ -1,6 +1,1193 @@
-//! Monitor for C30 (see /verif/DESIGN.md §5 C30).
-use vcommon::Args;
+//! Monitor for C30 "GT balances, mint cost and user ranks stay consistent" (see /verif/DESIGN.md §5 C30).
+//!
+//! Random histories of the real store-program instructions `initialize_gt`, `toggle_gt_minting`,
+//! order create/execute/close (GT minted from paid order fees, referral reward on close),
+//! `mint_gt_reward`, `gt_set_exchange_time_window`, `prepare_gt_exchange_vault`, `request_gt_exchange`,
+//! `confirm_gt_exchange_vault_v2`, `close_gt_exchange`, with clock moves across exchange windows, are
+//! executed in hostsvm. A small sequential reference model (per-user balances, total minted, vault
+//! amounts) plus BigInt recomputation of the minting cost decides every successful instruction.
+use crate::world::{
+    exchange::{load, OrderKind, OrderReq},
+    gt::{gt_updated_events, GtParams},
+    World, UNIT,
+};
+use anchor_lang::prelude::Pubkey;
+use gmsol_store::{events::GtUpdateKind, states::Position};
+use hostsvm::{token, TxError};
+use std::collections::{BTreeMap, BTreeSet};
+use vcommon::{
+    json,
+    monitor::{guard, run_shards},
+    num_bigint::BigInt,
+    num_traits::ToPrimitive,
+    serde_json::Value,
+    Args, Monitor, Rng,
+};
 
-pub fn run(_args: &Args) -> Option<i32> {
-    None
+const E18: u128 = 1_000_000_000_000_000_000;
+/// Largest number of cost steps a single mint may cross / a history may reach (the program loops once
+/// per step; the bound keeps the workload finite, it is not part of the oracle).
+const MAX_STEPS_PER_MINT: u128 = 3_000;
+const MAX_STEPS_PER_HISTORY: u128 = 40_000;
+const MAX_RANK: usize = 15;
+
+struct Base {
+    w: World,
+    users: Vec<Pubkey>,
+    market: usize,
+    tokens: [usize; 3],
+}
+
+fn refresh_prices(w: &mut World, t: &[usize; 3]) -> bool {
+    let a = w.set_price(t[0], 59_990 * E18, 60_000 * E18, 60_010 * E18).is_ok();
+    let b = w.set_price(t[1], 149 * E18, 150 * E18, 151 * E18).is_ok();
+    let c = w.set_price(t[2], E18, E18, E18).is_ok();
+    a && b && c
+}
+
+/// Store, oracle, one market with liquidity, four funded traders with user accounts, one referral.
+/// Any failure here is a harness error (panic ⇒ the shard is reported inconclusive).
+fn base_world() -> Base {
+    let mut w = World::bootstrap_store();
+    w.bootstrap_oracle();
+    let btc = w.add_token("BTC", 8, 2, true);
+    let sol = w.add_token("SOL", 9, 4, false);
+    let usdc = w.add_token("USDC", 6, 6, false);
+    let market = w.add_market(btc, sol, usdc);
+    let tokens = [btc, sol, usdc];
+    assert!(refresh_prices(&mut w, &tokens), "bootstrap: set prices");
+    let (sol_mint, usdc_mint) = (w.tokens[sol].mint, w.tokens[usdc].mint);
+    let lp = w.add_user("lp");
+    token::fund_ata(&mut w.svm, &lp, &sol_mint, 20_000_000_000_000);
+    token::fund_ata(&mut w.svm, &lp, &usdc_mint, 3_000_000_000_000);
+    let d = w
+        .create_deposit(lp, market, 10_000_000_000_000, 1_500_000_000_000, None, None, &[], &[], 0)
+        .unwrap_or_else(|(e, _)| panic!("bootstrap: create_deposit {e:?}"));
+    w.execute_deposit(d, true).unwrap_or_else(|(e, _)| panic!("bootstrap: execute_deposit {e:?}"));
+    w.close_deposit(lp, d).unwrap_or_else(|(e, _)| panic!("bootstrap: close_deposit {e:?}"));
+    let mut users = vec![];
+    for name in ["t0", "t1", "t2", "t3"] {
+        let u = w.add_user(name);
+        token::fund_ata(&mut w.svm, &u, &sol_mint, 100_000_000_000_000);
+        token::fund_ata(&mut w.svm, &u, &usdc_mint, 100_000_000_000_000);
+        w.prepare_user(u).unwrap_or_else(|(e, _)| panic!("bootstrap: prepare_user {e:?}"));
+        users.push(u);
+    }
+    // t1 is referred by t0 (referral rewards are minted to t0 when t1's orders are closed).
+    let code = *b"c30refer";
+    w.initialize_referral_code(users[0], code).unwrap_or_else(|(e, _)| panic!("bootstrap: referral code {e:?}"));
+    w.set_referrer(users[1], users[0], code).unwrap_or_else(|(e, _)| panic!("bootstrap: set_referrer {e:?}"));
+    Base { w, users, market, tokens }
+}
+
+#[derive(Clone, Debug)]
+struct VaultModel {
+    index: i64,
+    window: i64,
+    amount: u64,
+    confirmed: bool,
+}
+
+struct Model {
+    p: GtParams,
+    /// Stored rank table (`init` keeps at most MAX_RANK thresholds).
+    ranks: Vec<u64>,
+    /// `costs[k]` = minting cost after `k` grow steps, recomputed from the initial cost (BigInt);
+    /// `None` = does not fit u128 (the program reports an error there).
+    costs: Vec<Option<u128>>,
+    total: u64,
+    /// Balance per user-account address.
+    bal: BTreeMap<Pubkey, u64>,
+    /// User accounts that had a non-zero mint or burn.
+    touched: BTreeSet<Pubkey>,
+    gt_vault: u64,
+    vaults: BTreeMap<Pubkey, VaultModel>,
+    exchanges: BTreeMap<(Pubkey, Pubkey), u64>,
+    minting_enabled: bool,
+    last_total_seen: u64,
+}
+
+impl Model {
+    fn new(p: &GtParams) -> Self {
+        let n = p.ranks.len().min(MAX_RANK);
+        Self {
+            p: p.clone(),
+            ranks: p.ranks[..n].to_vec(),
+            costs: vec![Some(p.initial_minting_cost)],
+            total: 0,
+            bal: BTreeMap::new(),
+            touched: BTreeSet::new(),
+            gt_vault: 0,
+            vaults: BTreeMap::new(),
+            exchanges: BTreeMap::new(),
+            minting_enabled: false,
+            last_total_seen: 0,
+        }
+    }
+
+    /// Cost after `k` steps: `c_{i+1} = ⌊c_i · factor / 10^20⌋`, step by step from the initial cost.
+    fn cost_at(&mut self, k: u128) -> Option<u128> {
+        let k = k as usize;
+        while self.costs.len() <= k {
+            let next = match self.costs.last().copied().flatten() {
+                None => None,
+                Some(c) => {
+                    let v: BigInt = BigInt::from(c) * BigInt::from(self.p.grow_factor) / BigInt::from(UNIT);
+                    v.to_u128()
+                }
+            };
+            self.costs.push(next);
+        }
+        self.costs[k]
+    }
+
+    fn steps(&self) -> u128 {
+        self.total as u128 / self.p.grow_step as u128
+    }
+
+    /// The program loops once per crossed step: keep mints within a finite number of steps.
+    fn steps_ok(&self, amount: u64) -> bool {
+        let t = self.total as u128 + amount as u128;
+        if t > u64::MAX as u128 {
+            return true; // rejected before the loop
+        }
+        let ns = t / self.p.grow_step as u128;
+        ns - self.steps() <= MAX_STEPS_PER_MINT && ns <= MAX_STEPS_PER_HISTORY
+    }
+
+    fn rank_of(&self, balance: u64) -> usize {
+        self.ranks.iter().filter(|t| **t <= balance).count()
+    }
+
+    fn apply_mint(&mut self, user: Pubkey, amount: u64) {
+        if amount != 0 {
+            *self.bal.entry(user).or_insert(0) += amount;
+            self.total += amount;
+            self.touched.insert(user);
+        }
+    }
+}
+
+struct Ctx<'a> {
+    seed: u64,
+    shard: u64,
+    hist: u64,
+    log: &'a mut Vec<String>,
+}
+
+impl Ctx<'_> {
+    fn witness(&self, md: &Model, detail: Value) -> Value {
+        let n = self.log.len();
+        let from = n.saturating_sub(400);
+        json!({
+            "seed": self.seed, "shard": self.shard, "history": self.hist,
+            "gt_params": {
+                "decimals": md.p.decimals,
+                "initial_minting_cost": md.p.initial_minting_cost.to_string(),
+                "grow_factor": md.p.grow_factor.to_string(),
+                "grow_step": md.p.grow_step.to_string(),
+                "ranks": md.p.ranks.iter().map(|r| r.to_string()).collect::<Vec<_>>(),
+            },
+            "ops_before": self.log[from..].to_vec(),
+            "ops_omitted": from,
+            "detail": detail,
+        })
+    }
+}
+
+fn err_name(e: &TxError) -> String {
+    match e {
+        TxError::Program(p) => match e.custom_code() {
+            Some(c) => format!("custom_{c}"),
+            None => format!("program_{p:?}").chars().take(40).collect(),
+        },
+        TxError::Panic(_) => "panic".into(),
+        TxError::Runtime(r) => format!("runtime_{}", r.chars().take(24).collect::<String>()),
+    }
+}
+
+fn gen_params(rng: &mut Rng) -> (GtParams, &'static str) {
+    let class = ["grow", "grow", "grow", "grow", "grow", "grow", "grow", "shrink", "shrink", "flat", "huge_factor", "tiny_cost", "zero_factor"]
+        [rng.below(13) as usize];
+    let decimals = rng.below(10) as u8;
+    let mut grow_step = match rng.below(4) {
+        0 => rng.range(1, 10),
+        _ => rng.log_u64(1_000_000_000_000).max(1),
+    };
+    // USD value (20 decimals) of one grow step.
+    let p_step: u128 = 10u128.pow(rng.range(18, 22) as u32) * rng.range(1, 9) as u128;
+    let mut cost = (p_step / grow_step as u128).max(1);
+    let grow_factor = match class {
+        "grow" => UNIT + UNIT / 10_000 * rng.range(1, 500) as u128,
+        "shrink" => UNIT - UNIT / 10_000 * rng.range(1, 300) as u128,
+        "flat" => UNIT,
+        "huge_factor" => UNIT * rng.range(2, 1_000) as u128 + rng.range(0, 1_000_000) as u128,
+        "zero_factor" => 0,
+        _ => UNIT + UNIT / 100,
+    };
+    if class == "tiny_cost" {
+        cost = rng.range(0, 3) as u128;
+        grow_step = rng.range(1 << 50, 1 << 60);
+    }
+    let n = if rng.chance(1, 10) { rng.range(16, 20) } else { rng.range(0, 15) } as usize;
+    let mut ranks = vec![];
+    let mut acc: u64 = if rng.chance(1, 12) { 0 } else { rng.log_u64(grow_step.saturating_mul(4)).max(1) };
+    for _ in 0..n {
+        ranks.push(acc);
+        acc = acc.saturating_add(rng.log_u64(grow_step.saturating_mul(30)).max(1));
+    }
+    ranks.dedup();
+    (GtParams { decimals, initial_minting_cost: cost, grow_factor, grow_step, ranks }, class)
+}
+
+/// Invalid `initialize_gt` arguments: every one of them must leave the GT state uninitialized.
+fn try_invalid_inits(w: &mut World, rng: &mut Rng, p: &GtParams, m: &mut Monitor) {
+    if rng.chance(1, 3) {
+        let mut q = p.clone();
+        q.grow_step = 0;
+        m.count(if w.initialize_gt(&q).is_err() { "init_zero_step_rejected" } else { "init_zero_step_accepted" });
+    }
+    if p.ranks.len() >= 2 && rng.chance(1, 3) {
+        let mut q = p.clone();
+        let i = rng.below(q.ranks.len().min(MAX_RANK) as u64 - 1) as usize;
+        if rng.bool() {
+            q.ranks.swap(i, i + 1);
+        } else {
+            q.ranks[i + 1] = q.ranks[i];
+        }
+        m.count(if w.initialize_gt(&q).is_err() { "init_unsorted_ranks_rejected" } else { "init_unsorted_ranks_accepted" });
+    }
+}
+
+/// Quiescent-point oracle: run after every successful instruction.
+fn check_global(w: &World, md: &mut Model, m: &mut Monitor, cx: &Ctx, after: &str) {
+    m.eval();
+    let Some(gt) = w.gt_state() else {
+        m.inconclusive("harness: store account unreadable");
+        return;
+    };
+    let users = w.all_user_headers();
+    // (1) buyback-able supply == Σ user balances (every user account of the store).
+    let sum: u128 = users.iter().map(|(_, u)| u.gt().amount() as u128).sum();
+    if sum != gt.supply() as u128 {
+        m.violation(
+            "C30:global:supply_ne_sum_of_balances",
+            cx.witness(md, json!({"after": after, "supply": gt.supply().to_string(), "sum_balances": sum.to_string()})),
+        );
+    }
+    // (2) total minted never decreases (and equals the reference model's Σ mints).
+    if gt.total_minted() < md.last_total_seen {
+        m.violation(
+            "C30:global:total_minted_decreased",
+            cx.witness(md, json!({"after": after, "before": md.last_total_seen.to_string(), "now": gt.total_minted().to_string()})),
+        );
+    }
+    md.last_total_seen = gt.total_minted();
+    if gt.total_minted() != md.total {
+        m.violation(
+            "C30:global:total_minted_ne_model",
+            cx.witness(md, json!({"after": after, "onchain": gt.total_minted().to_string(), "model": md.total.to_string()})),
+        );
+    }
+    // (3) cost is a function of total minted only: ⌊T/step⌋ sequential factor applications from the initial cost.
+    let steps = gt.total_minted() as u128 / md.p.grow_step as u128;
+    if gt.grow_steps() as u128 != steps {
+        m.violation(
+            "C30:global:grow_steps_ne_total_div_step",
+            cx.witness(md, json!({"after": after, "grow_steps": gt.grow_steps().to_string(), "expected": steps.to_string()})),
+        );
+    }
+    if steps <= MAX_STEPS_PER_HISTORY + MAX_STEPS_PER_MINT {
+        match md.cost_at(steps) {
+            Some(c) if c == gt.minting_cost() => {}
+            other => {
+                m.violation(
+                    "C30:global:minting_cost_ne_recomputed",
+                    cx.witness(md, json!({"after": after, "total_minted": gt.total_minted().to_string(), "steps": steps.to_string(),
+                        "onchain_cost": gt.minting_cost().to_string(), "recomputed": other.map(|c| c.to_string())})),
+                );
+            }
+        }
+    }
+    // (4) per-user balances equal the reference model; rank == #thresholds ≤ balance.
+    for (key, u) in &users {
+        let expect = md.bal.get(key).copied().unwrap_or(0);
+        if u.gt().amount() != expect {
+            m.violation(
+                "C30:global:balance_ne_model",
+                cx.witness(md, json!({"after": after, "user_account": key.to_string(), "onchain": u.gt().amount().to_string(), "model": expect.to_string()})),
+            );
+        }
+        let rank = md.rank_of(u.gt().amount());
+        if u.gt().rank() as usize != rank {
+            let sig = if md.touched.contains(key) { "C30:rank:ne_thresholds_at_or_below_balance" } else { "C30:rank:stale_for_user_without_mint_or_burn" };
+            m.violation(
+                sig,
+                cx.witness(md, json!({"after": after, "user_account": key.to_string(), "balance": u.gt().amount().to_string(),
+                    "stored_rank": u.gt().rank(), "thresholds_at_or_below": rank})),
+            );
+        }
+        m.max("max_rank_seen", u.gt().rank() as u64);
+    }
+    // (5) reference model of burns: everything burnt sits in a vault; confirmed vault amounts are in gt_vault.
+    if gt.gt_vault() != md.gt_vault {
+        m.violation(
+            "C30:global:gt_vault_ne_confirmed_vault_amounts",
+            cx.witness(md, json!({"after": after, "gt_vault": gt.gt_vault().to_string(), "model": md.gt_vault.to_string()})),
+        );
+    }
+    let mut vault_sum: u128 = 0;
+    for (key, v) in w.all_gt_vaults() {
+        vault_sum += v.amount() as u128;
+        let mv = md.vaults.get(&key);
+        if mv.map(|x| (x.amount, x.confirmed)) != Some((v.amount(), v.is_confirmed())) {
+            m.violation(
+                "C30:global:vault_ne_model",
+                cx.witness(md, json!({"after": after, "vault": key.to_string(), "amount": v.amount().to_string(), "confirmed": v.is_confirmed(),
+                    "model": mv.map(|x| format!("{x:?}"))})),
+            );
+        }
+    }
+    if gt.supply() as u128 + vault_sum != gt.total_minted() as u128 {
+        m.violation(
+            "C30:global:supply_plus_vaults_ne_total_minted",
+            cx.witness(md, json!({"after": after, "supply": gt.supply().to_string(), "vaults": vault_sum.to_string(), "total_minted": gt.total_minted().to_string()})),
+        );
+    }
+}
+
+/// `get_mint_amount` on the real GT state (hook `verif_get_mint_amount`) against the BigInt formula.
+fn check_get_mint_amount(w: &World, rng: &mut Rng, n: usize, md: &Model, m: &mut Monitor, cx: &Ctx) {
+    let Some(gt) = w.gt_state() else { return };
+    let cost = gt.minting_cost();
+    for _ in 0..n {
+        let size = match rng.below(5) {
+            0 => rng.biased_u128(u128::MAX, cost.max(1)),
+            1 => cost.saturating_mul(rng.log_u64(u64::MAX) as u128).saturating_add(rng.below_u128(cost.max(1))),
+            2 => cost.saturating_mul(u64::MAX as u128).saturating_add(rng.range_u128(0, 2 * cost.max(1))).saturating_sub(cost.max(1)),
+            3 => rng.log_u128(u128::MAX),
+            _ => rng.log_u128(10_000 * UNIT),
+        };
+        m.eval();
+        m.count("get_mint_amount_direct");
+        let r = guard(|| gt.verif_get_mint_amount(size));
+        let w_ = |why: &str, got: Value| cx.witness(md, json!({"why": why, "size_in_value": size.to_string(), "minting_cost": cost.to_string(), "got": got}));
+        match r {
+            Err(p) => {
+                m.count("panics");
+                m.count("get_mint_amount_panic");
+                let _ = p;
+            }
+            Ok(Err(_)) => {
+                if cost == 0 {
+                    m.count("get_mint_amount_zero_cost_rejected");
+                } else if BigInt::from(size) / BigInt::from(cost) > BigInt::from(u64::MAX) {
+                    m.count("get_mint_amount_overflow_rejected");
+                } else {
+                    m.count("get_mint_amount_unexpected_err");
+                }
+            }
+            Ok(Ok((minted, minted_value, used_cost))) => {
+                if cost == 0 {
+                    m.violation("C30:get_mint_amount:ok_with_zero_cost", w_("cost is zero", json!(minted.to_string())));
+                    continue;
+                }
+                let q = BigInt::from(size) / BigInt::from(cost);
+                let rem = BigInt::from(size) - &q * BigInt::from(cost);
+                let ok = BigInt::from(minted) == q
+                    && BigInt::from(minted_value) == &q * BigInt::from(cost)
+                    && used_cost == cost
+                    && rem >= BigInt::from(0)
+                    && rem < BigInt::from(cost)
+                    && BigInt::from(size) - BigInt::from(minted_value) == rem;
+                if !ok {
+                    m.violation(
+                        "C30:get_mint_amount:ne_floor_of_value_over_cost",
+                        w_("minted / minted value / cost differ from ⌊v/c⌋, ⌊v/c⌋·c, c", json!([minted.to_string(), minted_value.to_string(), used_cost.to_string()])),
+                    );
+                } else {
+                    m.count("get_mint_amount_ok");
+                    if minted > 0 && rem > BigInt::from(0) {
+                        m.nontrivial(&[b"gma".as_slice(), &size.to_le_bytes(), &cost.to_le_bytes()].concat());
+                    }
+                }
+            }
+        }
+    }
+}
+
+fn mint_amount(rng: &mut Rng, md: &Model) -> u64 {
+    let s = md.p.grow_step;
+    let to_boundary = s - md.total % s;
+    match rng.below(12) {
+        0 => 0,
+        1 => to_boundary,
+        2 => to_boundary.saturating_sub(1),
+        3 => to_boundary.saturating_add(1),
+        4 => s.saturating_mul(rng.range(1, 20)),
+        5 => s.saturating_mul(rng.range(1, 200)).saturating_add(rng.below(s)),
+        6 if md.total > 0 => u64::MAX,
+        7 if md.total > 0 => u64::MAX - md.total + rng.range(0, 1),
+        8 => rng.log_u64(s.saturating_mul(50)).max(1),
+        _ => rng.range(1, s.saturating_mul(rng.range(1, 4))),
+    }
+}
+
+fn current_index(w: &World, window: i64) -> i64 {
+    w.svm.clock.unix_timestamp / window
+}
+
+/// `mint_gt_reward` with the per-instruction oracle. Returns true on success.
+fn op_mint(w: &mut World, md: &mut Model, m: &mut Monitor, cx: &mut Ctx, owner: Pubkey, amount: u64) -> bool {
+    let keeper = w.keeper;
+    let user = w.user_pda(&owner);
+    cx.log.push(format!("mint_gt_reward owner={owner} amount={amount} t={}", w.svm.clock.unix_timestamp));
+    let steps_before = md.steps();
+    let rank_before = w.user_header(&owner).map(|u| u.gt().rank());
+    match w.mint_gt_reward(keeper, owner, amount) {
+        Ok(meta) => {
+            m.count("mint_reward_ok");
+            if amount == 0 {
+                m.count("mint_reward_zero_amount_ok");
+            }
+            md.apply_mint(user, amount);
+            if md.steps() > steps_before {
+                m.count("mint_crossed_cost_step");
+                m.add("cost_steps_crossed", (md.steps() - steps_before) as u64);
+            }
+            for e in gt_updated_events(&meta) {
+                if matches!(e.kind, GtUpdateKind::Reward) && e.receiver_delta != amount {
+                    m.violation(
+                        "C30:mint_gt_reward:event_delta_ne_amount",
+                        cx.witness(md, json!({"amount": amount.to_string(), "event_delta": e.receiver_delta.to_string()})),
+                    );
+                }
+            }
+            check_global(w, md, m, cx, "mint_gt_reward");
+            if w.user_header(&owner).map(|u| u.gt().rank()) != rank_before {
+                m.count("rank_changed");
+            }
+            if amount != 0 {
+                m.nontrivial(&[b"mint".as_slice(), &amount.to_le_bytes(), &md.total.to_le_bytes(), &md.p.grow_step.to_le_bytes()].concat());
+            }
+            true
+        }
+        Err((e, _)) => {
+            let t = md.total as u128 + amount as u128;
+            let expected = if t > u64::MAX as u128 {
+                "mint_reward_rejected_amount_overflow"
+            } else if md.cost_at(t / md.p.grow_step as u128).is_none() {
+                "mint_reward_rejected_cost_overflow"
+            } else if e.is_panic() {
+                m.count("panics");
+                "mint_reward_panicked"
+            } else {
+                "mint_reward_rejected_other"
+            };
+            m.count(expected);
+            m.count(&format!("mint_reward_err_{}", err_name(&e)));
+            false
+        }
+    }
+}
+
+/// Twin experiment: the same total reached by one mint or by several smaller ones gives the same cost.
+fn op_twin(w: &World, md: &Model, rng: &mut Rng, m: &mut Monitor, cx: &Ctx, users: &[Pubkey]) {
+    let s = md.p.grow_step;
+    let x = match rng.below(3) {
+        0 => s.saturating_mul(rng.range(1, 30)),
+        1 => (s - md.total % s).saturating_add(rng.below(s.saturating_mul(3))),
+        _ => rng.range(1, s.saturating_mul(rng.range(1, 12))),
+    };
+    if !md.steps_ok(x) || md.total.checked_add(x).is_none() {
+        m.count("twin_skipped");
+        return;
+    }
+    let keeper = w.keeper;
+    let mut a = w.clone();
+    let mut b = w.clone();
+    let k = rng.range(2, 6) as usize;
+    let mut cuts: Vec<u64> = (0..k - 1).map(|_| rng.range(0, x)).collect();
+    cuts.sort();
+    let mut parts = vec![];
+    let mut prev = 0;
+    for c in cuts.iter().chain(std::iter::once(&x)) {
+        parts.push(c - prev);
+        prev = *c;
+    }
+    let ra = a.mint_gt_reward(keeper, users[0], x).is_ok();
+    let mut rb = true;
+    let mut desc = vec![];
+    for p in &parts {
+        let warp = if rng.chance(1, 3) { rng.range_i64(1, 200_000) } else { 0 };
+        if warp > 0 {
+            b.svm.warp(warp);
+        }
+        let u = *rng.pick(users);
+        desc.push(format!("{p}->{u} after +{warp}s"));
+        rb &= b.mint_gt_reward(keeper, u, *p).is_ok();
+    }
+    m.eval();
+    match (ra, rb) {
+        (true, true) => {
+            let (ga, gb) = (a.gt_state().expect("gt"), b.gt_state().expect("gt"));
+            m.count("twin_compared");
+            if (x as u128 + md.total as u128) / s as u128 > md.steps() {
+                m.count("twin_compared_across_cost_step");
+            }
+            if ga.minting_cost() != gb.minting_cost() || ga.grow_steps() != gb.grow_steps() || ga.total_minted() != gb.total_minted() {
+                m.violation(
+                    "C30:twin:cost_depends_on_how_minting_was_split",
+                    cx.witness(md, json!({"total_before": md.total.to_string(), "one_mint": x.to_string(), "split": desc,
+                        "one": [ga.total_minted().to_string(), ga.grow_steps().to_string(), ga.minting_cost().to_string()],
+                        "many": [gb.total_minted().to_string(), gb.grow_steps().to_string(), gb.minting_cost().to_string()]})),
+                );
+            }
+            m.nontrivial(&[b"twin".as_slice(), &x.to_le_bytes(), &md.total.to_le_bytes(), &(k as u64).to_le_bytes()].concat());
+        }
+        (false, false) => m.count("twin_both_rejected"),
+        _ => m.count("twin_one_side_rejected"),
+    }
+}
+
+/// Create + execute + close one position order; GT minted from the paid fee is checked against
+/// ⌊(paid − already minted for) / cost⌋ with the remainder carried.
+fn op_order(base: &Base, w: &mut World, md: &mut Model, rng: &mut Rng, m: &mut Monitor, cx: &mut Ctx) {
+    if !refresh_prices(w, &base.tokens) {
+        m.count("price_refresh_failed");
+        return;
+    }
+    let owner = *rng.pick(&base.users);
+    let user = w.user_pda(&owner);
+    let pos_key = w.position_pda(&owner, base.market, true, false);
+    let size_now = load::<Position>(&w.svm, &pos_key).map(|p| p.state.size_in_usd).unwrap_or(0);
+    let decrease = size_now > 0 && rng.chance(2, 5);
+    let mut req;
+    if decrease {
+        req = OrderReq::new(OrderKind::MarketDecrease, base.market, true, false);
+        req.size_delta_value = if rng.chance(1, 3) { size_now } else { (size_now / 100 * rng.range(5, 95) as u128).max(UNIT) };
+    } else {
+        req = OrderReq::new(OrderKind::MarketIncrease, base.market, true, false);
+        let usd = rng.range(20, 40_000) as u128;
+        req.size_delta_value = usd * UNIT + rng.below_u128(UNIT);
+        req.initial_collateral_delta_amount = ((usd / rng.range(2, 8) as u128 + 5) * 1_000_000) as u64;
+    }
+    // Finite-loop guard (not an oracle): worst-case mint must stay within the step bound.
+    let Some(pre_u) = w.user_header(&owner) else { return };
+    let Some(pre_gt) = w.gt_state() else { return };
+    let carry = pre_u.gt().paid_fee_value().saturating_sub(pre_u.gt().minted_fee_value());
+    let fee_bound = req.size_delta_value / 500 + size_now / 100;
+    if pre_gt.minting_cost() != 0 {
+        let worst = (carry + fee_bound) / pre_gt.minting_cost();
+        if worst <= u64::MAX as u128 && !md.steps_ok(worst as u64) {
+            m.count("order_skipped_by_step_guard");
+            return;
+        }
+    }
+    cx.log.push(format!(
+        "order owner={owner} kind={} size_delta={} collateral={} minting_enabled={} t={}",
+        if decrease { "decrease" } else { "increase" },
+        req.size_delta_value,
+        req.initial_collateral_delta_amount,
+        md.minting_enabled,
+        w.svm.clock.unix_timestamp
+    ));
+    let order = match w.create_order(owner, &req) {
+        Ok(o) => o,
+        Err((e, _)) => {
+            m.count("order_create_failed");
+            m.count(&format!("order_create_err_{}", err_name(&e)));
+            return;
+        }
+    };
+    m.count("order_created");
+    let steps_before = md.steps();
+    match w.execute_order(order, true) {
+        Ok(meta) => {
+            m.count("order_executed");
+            let (Some(post_u), Some(post_gt)) = (w.user_header(&owner), w.gt_state()) else {
+                m.inconclusive("harness: user/store unreadable after order execution");
+                return;
+            };
+            let paid = post_u.gt().paid_fee_value();
+            let d_paid = paid.saturating_sub(pre_u.gt().paid_fee_value());
+            let d_bal = post_u.gt().amount() as i128 - pre_u.gt().amount() as i128;
+            let events = gt_updated_events(&meta);
+            let mint_events: Vec<_> = events.iter().filter(|e| matches!(e.kind, GtUpdateKind::Mint)).collect();
+            if !md.minting_enabled {
+                m.count("order_executed_minting_disabled");
+                if d_bal != 0 || post_gt.total_minted() != pre_gt.total_minted() {
+                    // Not part of C30's statement; recorded, and the model follows the chain.
+                    m.count("gt_minted_while_market_minting_disabled");
+                    if d_bal > 0 {
+                        md.apply_mint(user, d_bal as u64);
+                    }
+                }
+            } else if d_paid == 0 && mint_events.is_empty() {
+                m.count("order_executed_no_fee_paid");
+            } else {
+                m.eval();
+                let cost = pre_gt.minting_cost();
+                let value = BigInt::from(paid) - BigInt::from(pre_u.gt().minted_fee_value());
+                if cost == 0 || value < BigInt::from(0) {
+                    m.violation(
+                        "C30:order_mint:executed_with_unusable_cost_or_value",
+                        cx.witness(md, json!({"cost": cost.to_string(), "paid": paid.to_string(), "minted_for": pre_u.gt().minted_fee_value().to_string()})),
+                    );
+                } else {
+                    let q = &value / BigInt::from(cost);
+                    let rem = &value - &q * BigInt::from(cost);
+                    let minted_for = BigInt::from(post_u.gt().minted_fee_value());
+                    let ok = BigInt::from(d_bal) == q
+                        && minted_for == BigInt::from(pre_u.gt().minted_fee_value()) + &q * BigInt::from(cost)
+                        && BigInt::from(paid) - &minted_for == rem
+                        && rem < BigInt::from(cost)
+                        && BigInt::from(post_gt.total_minted()) - BigInt::from(pre_gt.total_minted()) == q
+                        && mint_events.len() == 1
+                        && mint_events[0].minting_cost == cost
+                        && BigInt::from(mint_events[0].receiver_delta) == q;
+                    if !ok {
+                        m.violation(
+                            "C30:order_mint:ne_floor_of_unminted_fee_value_over_cost",
+                            cx.witness(md, json!({
+                                "cost_before": cost.to_string(),
+                                "paid_fee_value_before": pre_u.gt().paid_fee_value().to_string(),
+                                "paid_fee_value_after": paid.to_string(),
+                                "minted_fee_value_before": pre_u.gt().minted_fee_value().to_string(),
+                                "minted_fee_value_after": post_u.gt().minted_fee_value().to_string(),
+                                "balance_delta": d_bal.to_string(),
+                                "expected_minted": q.to_string(),
+                                "expected_remainder": rem.to_string(),
+                                "mint_events": mint_events.iter().map(|e| json!([e.minting_cost.to_string(), e.receiver_delta.to_string()])).collect::<Vec<_>>(),
+                            })),
+                        );
+                    }
+                    if let Some(qq) = q.to_u64() {
+                        md.apply_mint(user, qq);
+                        if qq > 0 {
+                            m.count("order_mint_ok");
+                            if rem > BigInt::from(0) {
+                                m.count("order_mint_with_remainder_carried");
+                            }
+                            if carry > 0 {
+                                m.count("order_mint_used_carried_remainder");
+                            }
+                            m.nontrivial(&[b"omint".as_slice(), &qq.to_le_bytes(), &cost.to_le_bytes(), &md.total.to_le_bytes()].concat());
+                        } else {
+                            m.count("order_mint_zero_units_all_carried");
+                        }
+                    }
+                }
+            }
+            if md.steps() > steps_before {
+                m.count("mint_crossed_cost_step");
+                m.add("cost_steps_crossed", (md.steps() - steps_before) as u64);
+            }
+            check_global(w, md, m, cx, "execute_order");
+        }
+        Err((e, _)) => {
+            m.count("order_execution_failed");
+            m.count(&format!("order_exec_err_{}", err_name(&e)));
+            if e.is_panic() {
+                m.count("panics");
+            }
+        }
+    }
+    // Close (completed: may mint the referral reward to the referrer; failed: cancels and refunds).
+    match w.close_order(owner, order) {
+        Ok(meta) => {
+            m.count("order_closed");
+            let rewards: Vec<_> = gt_updated_events(&meta).into_iter().filter(|e| matches!(e.kind, GtUpdateKind::Reward) && e.receiver_delta > 0).collect();
+            let steps_before = md.steps();
+            for e in &rewards {
+                m.count("referral_reward_minted");
+                if let Some(r) = e.receiver {
+                    // The reward *amount* (rank factor) is C31's business; the model adopts the emitted amount
+                    // and the global oracle then requires balances / supply / total / cost / rank to agree.
+                    md.apply_mint(w.user_pda(&r), e.receiver_delta);
+                }
+            }
+            if md.steps() > steps_before {
+                m.count("mint_crossed_cost_step");
+                m.add("cost_steps_crossed", (md.steps() - steps_before) as u64);
+            }
+            check_global(w, md, m, cx, "close_order");
+        }
+        Err((e, _)) => {
+            m.count("order_close_failed");
+            m.count(&format!("order_close_err_{}", err_name(&e)));
+        }
+    }
+}
+
+fn op_prepare_vault(w: &mut World, md: &mut Model, rng: &mut Rng, m: &mut Monitor, cx: &mut Ctx, users: &[Pubkey]) -> Option<Pubkey> {
+    let window = w.gt_state()?.exchange_time_window();
+    let cur = current_index(w, window as i64);
+    let index = match rng.below(6) {
+        0 => cur - 1,
+        1 => cur + 1,
+        2 => cur - rng.range_i64(2, 5),
+        _ => cur,
+    };
+    let payer = *rng.pick(users);
+    let key = w.gt_vault_pda(index, window);
+    let existed = w.gt_vault(&key).is_some();
+    cx.log.push(format!("prepare_gt_exchange_vault index={index} (current {cur}) window={window} t={}", w.svm.clock.unix_timestamp));
+    m.eval();
+    match w.prepare_gt_exchange_vault(payer, index) {
+        Ok(v) => {
+            m.count("prepare_vault_ok");
+            if !existed {
+                if index != cur {
+                    m.violation(
+                        "C30:prepare_gt_exchange_vault:created_for_other_window_than_current",
+                        cx.witness(md, json!({"index": index, "current_index": cur, "window": window})),
+                    );
+                }
+                m.count("vault_created");
+                md.vaults.insert(v, VaultModel { index, window: window as i64, amount: 0, confirmed: false });
+            } else {
+                m.count("prepare_vault_existing_ok");
+            }
+            check_global(w, md, m, cx, "prepare_gt_exchange_vault");
+            Some(v)
+        }
+        Err((e, _)) => {
+            if existed || index == cur {
+                m.count("prepare_vault_unexpected_reject");
+            } else {
+                m.count("prepare_vault_wrong_index_rejected");
+            }
+            m.count(&format!("prepare_vault_err_{}", err_name(&e)));
+            None
+        }
+    }
+}
+
+fn op_request(w: &mut World, md: &mut Model, rng: &mut Rng, m: &mut Monitor, cx: &mut Ctx, users: &[Pubkey]) {
+    if md.vaults.is_empty() {
+        return;
+    }
+    let owner = *rng.pick(users);
+    let user = w.user_pda(&owner);
+    let now = w.svm.clock.unix_timestamp;
+    // Prefer the vault of the current window; sometimes a stale / confirmed one.
+    let keys: Vec<Pubkey> = md.vaults.keys().copied().collect();
+    let current: Vec<Pubkey> = md.vaults.iter().filter(|(_, v)| !v.confirmed && now / v.window == v.index).map(|(k, _)| *k).collect();
+    let vault = if !current.is_empty() && rng.chance(3, 4) { *rng.pick(&current) } else { *rng.pick(&keys) };
+    let Some(v) = w.gt_vault(&vault) else { return };
+    let bal = w.user_header(&owner).map(|u| u.gt().amount()).unwrap_or(0);
+    let amount = match rng.below(10) {
+        0 => 0,
+        1 => bal,
+        2 => bal.saturating_add(1),
+        3 => bal.saturating_add(rng.log_u64(u64::MAX / 2)),
+        4 => 1,
+        _ => rng.range(0, bal),
+    };
+    let depositable = !v.is_confirmed() && now / v.time_window() == v.time_window_index();
+    cx.log.push(format!(
+        "request_gt_exchange owner={owner} amount={amount} balance={bal} vault_index={} window={} now_index={} confirmed={} t={now}",
+        v.time_window_index(),
+        v.time_window(),
+        now / v.time_window(),
+        v.is_confirmed()
+    ));
+    m.eval();
+    let rank_before = w.user_header(&owner).map(|u| u.gt().rank());
+    match w.request_gt_exchange(owner, vault, amount) {
+        Ok(meta) => {
+            m.count("request_exchange_ok");
+            if v.is_confirmed() {
+                m.violation("C30:request_gt_exchange:accepted_on_confirmed_vault", cx.witness(md, json!({"vault": vault.to_string()})));
+            } else if !depositable {
+                m.violation(
+                    "C30:request_gt_exchange:accepted_outside_the_vault_window",
+                    cx.witness(md, json!({"vault_index": v.time_window_index(), "now_index": now / v.time_window(), "window": v.time_window()})),
+                );
+            }
+            if amount > bal {
+                m.violation(
+                    "C30:request_gt_exchange:burnt_more_than_balance",
+                    cx.witness(md, json!({"amount": amount.to_string(), "balance": bal.to_string()})),
+                );
+            }
+            if amount != 0 {
+                let b = md.bal.entry(user).or_insert(0);
+                *b = b.saturating_sub(amount);
+                md.touched.insert(user);
+                m.count("burn_ok");
+                if amount == bal {
+                    m.count("burn_whole_balance");
+                }
+            } else {
+                m.count("request_exchange_zero_amount_ok");
+            }
+            if let Some(mv) = md.vaults.get_mut(&vault) {
+                mv.amount = mv.amount.saturating_add(amount);
+            }
+            *md.exchanges.entry((vault, owner)).or_insert(0) += amount;
+            for e in gt_updated_events(&meta) {
+                if matches!(e.kind, GtUpdateKind::Burn) && e.receiver_delta != amount {
+                    m.violation(
+                        "C30:request_gt_exchange:event_delta_ne_amount",
+                        cx.witness(md, json!({"amount": amount.to_string(), "event_delta": e.receiver_delta.to_string()})),
+                    );
+                }
+            }
+            let ex = w.gt_exchange(&vault, &owner).map(|e| e.amount());
+            if ex != md.exchanges.get(&(vault, owner)).copied() {
+                m.violation(
+                    "C30:request_gt_exchange:exchange_amount_ne_sum_of_requests",
+                    cx.witness(md, json!({"exchange": ex.map(|x| x.to_string()), "model": md.exchanges.get(&(vault, owner)).map(|x| x.to_string())})),
+                );
+            }
+            check_global(w, md, m, cx, "request_gt_exchange");
+            if w.user_header(&owner).map(|u| u.gt().rank()) != rank_before {
+                m.count("rank_changed");
+            }
+            if amount != 0 {
+                m.nontrivial(&[b"burn".as_slice(), &amount.to_le_bytes(), &bal.to_le_bytes(), &v.time_window_index().to_le_bytes()].concat());
+            }
+        }
+        Err((e, _)) => {
+            let class = if v.is_confirmed() {
+                "request_rejected_confirmed_vault"
+            } else if !depositable {
+                "request_rejected_outside_window"
+            } else if amount > bal {
+                "request_rejected_insufficient_balance"
+            } else {
+                "request_rejected_unexpected"
+            };
+            m.count(class);
+            m.count(&format!("request_err_{}", err_name(&e)));
+            if e.is_panic() {
+                m.count("panics");
+            }
+        }
+    }
+}
+
+fn op_confirm(w: &mut World, md: &mut Model, rng: &mut Rng, m: &mut Monitor, cx: &mut Ctx) {
+    if md.vaults.is_empty() {
+        return;
+    }
+    let keys: Vec<Pubkey> = md.vaults.keys().copied().collect();
+    let now = w.svm.clock.unix_timestamp;
+    let ripe: Vec<Pubkey> = md.vaults.iter().filter(|(_, v)| !v.confirmed && now / v.window > v.index).map(|(k, _)| *k).collect();
+    let vault = if !ripe.is_empty() && rng.chance(2, 3) { *rng.pick(&ripe) } else { *rng.pick(&keys) };
+    let Some(v) = w.gt_vault(&vault) else { return };
+    let confirmable = v.is_initialized() && !v.is_confirmed() && now / v.time_window() > v.time_window_index();
+    cx.log.push(format!(
+        "confirm_gt_exchange_vault_v2 vault_index={} window={} now_index={} confirmed={} amount={} t={now}",
+        v.time_window_index(),
+        v.time_window(),
+        now / v.time_window(),
+        v.is_confirmed(),
+        v.amount()
+    ));
+    m.eval();
+    let keeper = w.keeper;
+    match w.confirm_gt_exchange_vault(keeper, vault, rng.log_u128(u128::MAX), if rng.bool() { Some(rng.log_u128(u128::MAX)) } else { None }) {
+        Ok(_) => {
+            m.count("confirm_vault_ok");
+            if !confirmable {
+                let sig = if v.is_confirmed() { "C30:confirm_gt_exchange_vault:confirmed_twice" } else { "C30:confirm_gt_exchange_vault:confirmed_before_window_passed" };
+                m.violation(sig, cx.witness(md, json!({"vault_index": v.time_window_index(), "now_index": now / v.time_window(), "window": v.time_window()})));
+            }
+            if let Some(mv) = md.vaults.get_mut(&vault) {
+                mv.confirmed = true;
+            }
+            md.gt_vault = md.gt_vault.saturating_add(v.amount());
+            if v.amount() > 0 {
+                m.count("confirm_vault_nonzero_amount");
+                m.nontrivial(&[b"confirm".as_slice(), &v.amount().to_le_bytes(), &v.time_window_index().to_le_bytes()].concat());
+            }
+            check_global(w, md, m, cx, "confirm_gt_exchange_vault_v2");
+        }
+        Err((e, _)) => {
+            let class = if v.is_confirmed() {
+                "confirm_rejected_already_confirmed"
+            } else if !confirmable {
+                "confirm_rejected_window_not_passed"
+            } else {
+                "confirm_rejected_unexpected"
+            };
+            m.count(class);
+            m.count(&format!("confirm_err_{}", err_name(&e)));
+        }
+    }
+}
+
+fn op_close_exchange(w: &mut World, md: &mut Model, rng: &mut Rng, m: &mut Monitor, cx: &mut Ctx) {
+    if md.exchanges.is_empty() {
+        return;
+    }
+    let keys: Vec<(Pubkey, Pubkey)> = md.exchanges.keys().copied().collect();
+    let (vault, owner) = *rng.pick(&keys);
+    let Some(v) = w.gt_vault(&vault) else { return };
+    cx.log.push(format!("close_gt_exchange owner={owner} vault_index={} confirmed={}", v.time_window_index(), v.is_confirmed()));
+    let keeper = w.keeper;
+    match w.close_gt_exchange(keeper, owner, vault) {
+        Ok(_) => {
+            m.count("close_exchange_ok");
+            if !v.is_confirmed() {
+                m.count("close_exchange_ok_on_unconfirmed_vault");
+            }
+            md.exchanges.remove(&(vault, owner));
+            check_global(w, md, m, cx, "close_gt_exchange");
+        }
+        Err((e, _)) => {
+            m.count(if v.is_confirmed() { "close_exchange_rejected_unexpected" } else { "close_exchange_rejected_unconfirmed" });
+            m.count(&format!("close_exchange_err_{}", err_name(&e)));
+        }
+    }
+}
+
+fn op_warp(w: &mut World, rng: &mut Rng, m: &mut Monitor, cx: &mut Ctx) {
+    let window = w.gt_state().map(|g| g.exchange_time_window() as i64).unwrap_or(86_400).max(1);
+    let now = w.svm.clock.unix_timestamp;
+    let to_next = window - now % window;
+    let secs = match rng.below(8) {
+        0 => rng.range_i64(1, 600),
+        1 => to_next - 1,
+        2 => to_next,
+        3 => to_next + 1,
+        4 => to_next + window * rng.range_i64(1, 3) + rng.range_i64(0, window - 1),
+        5 => rng.range_i64(1, window),
+        _ => rng.range_i64(1, 7_200),
+    }
+    .max(1);
+    w.svm.warp(secs);
+    if (now + secs) / window != now / window {
+        m.count("warp_crossed_window");
+    }
+    m.count("warp");
+    cx.log.push(format!("warp +{secs}s -> t={} index={}", now + secs, (now + secs) / window));
+}
+
+fn history(base: &Base, rng: &mut Rng, m: &mut Monitor, seed: u64, shard: u64, hist: u64, n_ops: u64) {
+    let mut w = base.w.clone();
+    let mut log: Vec<String> = vec![];
+    let mut cx = Ctx { seed, shard, hist, log: &mut log };
+    // Start at a random offset inside an exchange window.
+    w.svm.warp(rng.range_i64(0, 200_000));
+    let (p, class) = gen_params(rng);
+    m.count(&format!("gt_class_{class}"));
+    // Before initialization the GT instructions must refuse.
+    if rng.chance(1, 4) {
+        let keeper = w.keeper;
+        m.count(if w.mint_gt_reward(keeper, base.users[0], 5).is_err() { "mint_before_init_rejected" } else { "mint_before_init_accepted" });
+    }
+    try_invalid_inits(&mut w, rng, &p, m);
+    if w.gt_state().map(|g| g.is_initialized()).unwrap_or(true) {
+        // An invalid init was accepted: the history continues with whatever is stored is not meaningful.
+        m.count("history_abandoned_invalid_init_accepted");
+        return;
+    }
+    cx.log.push(format!("initialize_gt {p:?} t={}", w.svm.clock.unix_timestamp));
+    if let Err((e, _)) = w.initialize_gt(&p) {
+        m.count("init_rejected");
+        m.count(&format!("init_err_{}", err_name(&e)));
+        return;
+    }
+    m.count("init_ok");
+    m.count("histories");
+    if p.ranks.len() > MAX_RANK {
+        m.count("init_with_more_than_15_ranks");
+    }
+    if p.ranks.first() == Some(&0) {
+        m.count("init_with_zero_threshold");
+    }
+    let mut md = Model::new(&p);
+    {
+        let gt = w.gt_state().expect("gt");
+        m.eval();
+        if gt.minting_cost() != p.initial_minting_cost || gt.decimals() != p.decimals || gt.total_minted() != 0 || gt.supply() != 0 || gt.grow_steps() != 0 {
+            m.violation(
+                "C30:initialize_gt:state_ne_arguments",
+                cx.witness(&md, json!({"cost": gt.minting_cost().to_string(), "decimals": gt.decimals(), "total_minted": gt.total_minted().to_string()})),
+            );
+        }
+    }
+    check_global(&w, &mut md, m, &cx, "initialize_gt");
+    // Referral reward factors (non-decreasing, one per rank incl. rank 0) so that closing t1's orders mints to t0.
+    {
+        let n = md.ranks.len() + 1;
+        let mut f = vec![];
+        let mut acc = UNIT / 100 * rng.range(0, 30) as u128;
+        for _ in 0..n {
+            f.push(acc);
+            acc += UNIT / 100 * rng.range(0, 10) as u128;
+        }
+        m.count(if w.gt_set_referral_reward_factors(f).is_ok() { "referral_factors_set" } else { "referral_factors_rejected" });
+    }
+    if rng.chance(4, 5) {
+        if w.toggle_gt_minting(base.market, true).is_ok() {
+            md.minting_enabled = true;
+            m.count("toggle_gt_minting_ok");
+        }
+    }
+    let keeper = w.keeper;
+    for _ in 0..n_ops {
+        if md.steps() >= MAX_STEPS_PER_HISTORY {
+            m.count("history_cut_at_step_bound");
+            break;
+        }
+        match rng.weighted(&[26, 10, 14, 8, 12, 7, 4, 10, 2, 3, 2, 2]) {
+            0 => {
+                let amount = mint_amount(rng, &md);
+                if md.steps_ok(amount) {
+                    let owner = *rng.pick(&base.users);
+                    if op_mint(&mut w, &mut md, m, &mut cx, owner, amount) && rng.chance(1, 4) {
+                        check_get_mint_amount(&w, rng, 4, &md, m, &cx);
+                    }
+                } else {
+                    m.count("mint_skipped_by_step_guard");
+                }
+            }
+            1 => op_order(base, &mut w, &mut md, rng, m, &mut cx),
+            2 => op_request(&mut w, &mut md, rng, m, &mut cx, &base.users),
+            3 => {
+                op_prepare_vault(&mut w, &mut md, rng, m, &mut cx, &base.users);
+            }
+            4 => op_warp(&mut w, rng, m, &mut cx),
+            5 => op_confirm(&mut w, &mut md, rng, m, &mut cx),
+            6 => op_close_exchange(&mut w, &mut md, rng, m, &mut cx),
+            7 => {
+                // Make sure the current window has a vault, then request.
+                let window = w.gt_state().map(|g| g.exchange_time_window()).unwrap_or(86_400);
+                let cur = current_index(&w, window as i64);
+                let key = w.gt_vault_pda(cur, window);
+                if w.gt_vault(&key).is_none() {
+                    cx.log.push(format!("prepare_gt_exchange_vault index={cur} (current) window={window}"));
+                    if let Ok(v) = w.prepare_gt_exchange_vault(keeper, cur) {
+                        m.count("prepare_vault_ok");
+                        m.count("vault_created");
+                        md.vaults.insert(v, VaultModel { index: cur, window: window as i64, amount: 0, confirmed: false });
+                        check_global(&w, &mut md, m, &cx, "prepare_gt_exchange_vault");
+                    }
+                }
+                op_request(&mut w, &mut md, rng, m, &mut cx, &base.users);
+            }
+            8 => {
+                let enable = rng.bool();
+                cx.log.push(format!("toggle_gt_minting {enable}"));
+                if w.toggle_gt_minting(base.market, enable).is_ok() {
+                    md.minting_enabled = enable;
+                    m.count("toggle_gt_minting_ok");
+                    check_global(&w, &mut md, m, &cx, "toggle_gt_minting");
+                }
+            }
+            9 => op_twin(&w, &md, rng, m, &cx, &base.users),
+            10 => {
+                let window = *rng.pick(&[0u32, 1, 60, 3_600, 86_400, 604_800]);
+                cx.log.push(format!("gt_set_exchange_time_window {window}"));
+                match w.gt_set_exchange_time_window(window) {
+                    Ok(_) => {
+                        m.count("set_exchange_time_window_ok");
+                        if window == 0 || w.gt_state().map(|g| g.exchange_time_window()) != Some(window) {
+                            m.violation("C30:gt_set_exchange_time_window:zero_or_not_stored", cx.witness(&md, json!({"window": window})));
+                        }
+                        check_global(&w, &mut md, m, &cx, "gt_set_exchange_time_window");
+                    }
+                    Err((e, _)) => {
+                        m.count("set_exchange_time_window_rejected");
+                        m.count(&format!("set_exchange_time_window_err_{}", err_name(&e)));
+                    }
+                }
+            }
+            _ => {
+                // Re-initialization and the cumulative-factor update must not disturb balances / cost.
+                if rng.bool() {
+                    cx.log.push("initialize_gt (again)".into());
+                    let (q, _) = gen_params(rng);
+                    match w.initialize_gt(&q) {
+                        Ok(_) => {
+                            m.count("reinit_accepted");
+                            check_global(&w, &mut md, m, &cx, "initialize_gt(again)");
+                        }
+                        Err(_) => m.count("reinit_rejected"),
+                    }
+                } else {
+                    cx.log.push("update_gt_cumulative_inv_cost_factor".into());
+                    if w.update_gt_cumulative_inv_cost_factor(keeper).is_ok() {
+                        m.count("update_cumulative_inv_cost_factor_ok");
+                        check_global(&w, &mut md, m, &cx, "update_gt_cumulative_inv_cost_factor");
+                    } else {
+                        m.count("update_cumulative_inv_cost_factor_rejected");
+                    }
+                }
+            }
+        }
+    }
+    check_get_mint_amount(&w, rng, 12, &md, m, &cx);
+    m.max("max_cost_steps_in_a_history", md.steps() as u64);
+    m.max("max_vaults_in_a_history", md.vaults.len() as u64);
+    if m.wants_sample() && md.total > 0 && m.counter("sampled_histories") < 3 {
+        m.count("sampled_histories");
+        let gt = w.gt_state().expect("gt");
+        m.sample(json!({
+            "shard": shard, "history": hist, "class": class,
+            "grow_step": p.grow_step.to_string(), "grow_factor": p.grow_factor.to_string(), "initial_cost": p.initial_minting_cost.to_string(),
+            "ranks": p.ranks.iter().map(|r| r.to_string()).collect::<Vec<_>>(),
+            "final_total_minted": gt.total_minted().to_string(), "final_supply": gt.supply().to_string(), "final_gt_vault": gt.gt_vault().to_string(),
+            "final_cost": gt.minting_cost().to_string(), "final_grow_steps": gt.grow_steps().to_string(),
+            "balances": w.all_user_headers().iter().map(|(_, u)| json!([u.gt().amount().to_string(), u.gt().rank()])).collect::<Vec<_>>(),
+            "first_ops": cx.log.iter().take(12).cloned().collect::<Vec<_>>(),
+        }));
+    }
+}
+
+pub fn run(args: &Args) -> Option<i32> {
+    let quiet = hostsvm::QuietStdout::new();
+    let mut mon = Monitor::new(
+        args,
+        "random histories (initialize_gt with random cost/growth/step/rank tables; mint_gt_reward, order create/execute/close with GT \
+         minting, request_gt_exchange, prepare/confirm vault, close_gt_exchange, clock moves across windows) run through the real store \
+         program in hostsvm; after every successful instruction the GT state and all user accounts are compared with a sequential \
+         reference model and a BigInt recomputation of the cost. Non-trivial = a successful non-zero mint / burn / vault confirmation, a \
+         twin comparison, or a direct get_mint_amount case with non-zero units and remainder; distinct = hash of (kind, amount, total \
+         minted, step or cost).",
+    );
+    mon.assume("rank tables longer than 15 entries: init keeps the first 15 (MAX_RANK); the rank oracle counts thresholds of the stored prefix");
+    mon.assume("single mints are kept below 3000 cost steps (the program loops once per step); amounts otherwise arbitrary incl. u64::MAX");
+    mon.assume("prices are constant (BTC 60000, SOL 150, USDC 1); order fees use the market's default fee factors");
+    let shards = args.scale(64, 448);
+    let hist_per_shard = args.scale(5, 12);
+    let (seed, tier_ops) = (args.seed, args.scale(70, 110));
+    run_shards(&mut mon, args.threads, shards, |shard, m| {
+        let base = base_world();
+        for h in 0..hist_per_shard {
+            let mut rng = Rng::derive(seed, shard, h);
+            let n_ops = rng.range(tier_ops / 2, tier_ops * 3 / 2);
+            history(&base, &mut rng, m, seed, shard, h, n_ops);
+        }
+    });
+    let k = args.scale(1, 6);
+    mon.require("histories", 150 * k);
+    mon.require("mint_reward_ok", 2_000 * k);
+    mon.require("mint_crossed_cost_step", 500 * k);
+    mon.require("order_mint_ok", 100 * k);
+    mon.require("order_mint_with_remainder_carried", 50 * k);
+    mon.require("burn_ok", 500 * k);
+    mon.require("request_rejected_outside_window", 20 * k);
+    mon.require("request_rejected_insufficient_balance", 20 * k);
+    mon.require("confirm_vault_nonzero_amount", 50 * k);
+    mon.require("confirm_rejected_window_not_passed", 20 * k);
+    mon.require("close_exchange_ok", 20 * k);
+    mon.require("rank_changed", 200 * k);
+    mon.require("twin_compared_across_cost_step", 50 * k);
+    mon.require("get_mint_amount_ok", 1_000 * k);
+    mon.require("warp_crossed_window", 200 * k);
+    if mon.counter("set_exchange_time_window_ok") == 0 {
+        mon.set_extra(
+            "not_covered",
+            json!(["gt_set_exchange_time_window: the store program is built without its `test-only` feature, where the instruction always \
+                    returns Unimplemented; the exchange window therefore stays at the 86400 s default (attempts and their rejection are counted)"]),
+        );
+    }
+    drop(quiet);
+    Some(mon.finish())
 }
